@@ -50,7 +50,7 @@ ST_E = st.sampled_from([1, 1, 2, 3])
 
 
 @st.composite
-def world_spec(draw, connected=True, prod=False, chainy=False, nunits=(2, 5), keep=7):
+def world_spec(draw, connected=True, prod=False, chainy=False, nunits=(2, 5), keep=7, min_ext=0, orphans=False):
     fams = []
     rat = _rat()
     for dim in DIMS:
@@ -69,9 +69,17 @@ def world_spec(draw, connected=True, prod=False, chainy=False, nunits=(2, 5), ke
         fams.append({"dim": dim, "sizes": sizes, "edges": edges})
     ext = []
     n0 = len(fams[0]["sizes"])
-    for _ in range(draw(_int(0, 3))):
+    for _ in range(draw(_int(min_ext, 3))):
         also = draw(_int(-1, n0 - 1))
-        ext.append({"k": draw(ST_K), "base": draw(_int(0, n0 - 1)), "r": draw(rat), "also": None if also < 0 else also})
+        item = {"k": draw(ST_K), "base": draw(_int(0, n0 - 1)), "r": draw(rat), "also": None if also < 0 else also}
+        if orphans and draw(_int(0, 9)) < 5:
+            # a named area/volume unit with no definition in terms of lengths; it may be
+            # declared against an earlier unit of the same kind only
+            item["orphan"] = True
+            item["also"] = None
+            peers = [i for i, x in enumerate(ext) if x.get("orphan") and x["k"] == item["k"]]
+            item["orphan_to"] = _choose(draw, peers) if peers and draw(ST_BOOL) else None
+        ext.append(item)
     spec = {"fams": fams, "ext": ext}
     if prod:
         n1 = len(fams[1]["sizes"])
@@ -137,6 +145,10 @@ class SynWorld:
             self.units[name] = m.Unit.define(dim0 ** e["k"], name, name)
             base = f"{tag0}{e['base']}"
             self.size[name] = Fraction(*e["r"]) * self.size[base] ** e["k"]
+            if e.get("orphan"):
+                if e.get("orphan_to") is not None:
+                    self.declare(name, [["", f"X{e['orphan_to']}", 1]], False)
+                continue
             self.declare(name, [["", base, e["k"]]], False)
             if e["also"] is not None and e["also"] != e["base"]:
                 self.declare(name, [["", f"{tag0}{e['also']}", e["k"]]], False)
@@ -211,6 +223,11 @@ def valid_spec(spec) -> bool:
                 return False
             if not (e["r"][0] > 0 and e["r"][1] > 0):
                 return False
+            if e.get("orphan_to") is not None:
+                j = e["orphan_to"]
+                x = spec["ext"].index(e)
+                if not (isinstance(j, int) and 0 <= j < x and spec["ext"][j].get("orphan") and spec["ext"][j]["k"] == e["k"]):
+                    return False
         n1 = len(spec["fams"][1]["sizes"])
         for e in spec.get("prod", []):
             if not (0 <= e["num"] < n0 and 0 <= e["den"] < n1 and e["r"][0] > 0 and e["r"][1] > 0):
